@@ -33,7 +33,7 @@ impl Srv {
         let stdout_path = dir.join(format!(".rwsv-{}-stdout", tag));
         let stderr_path = dir.join(format!(".rwsv-{}-stderr", tag));
         // logs live OUTSIDE the served tree (sibling of dir) so that the manifest of the tree is not touched by the harness
-        let logdir = dir.parent().unwrap_or(dir).join("logs");
+        let logdir = dir.parent().and_then(|p| p.parent()).unwrap_or(dir).join("logs");
         std::fs::create_dir_all(&logdir).ok();
         let stdout_path = logdir.join(stdout_path.file_name().unwrap());
         let stderr_path = logdir.join(stderr_path.file_name().unwrap());
@@ -164,7 +164,7 @@ pub fn history(o: &Opts) -> i32 {
     let bin = o.req("bin").to_string();
     let scratch = PathBuf::from(o.req("scratch"));
     let mut out = Out::create(o.req("out"));
-    let root = scratch.join("site");
+    let root = scratch.join("tree").join("site");
     make_site(&root);
     let t = Duration::from_millis(o.num("timeout-ms", 3000));
     for (hi, h) in read_ndjson(o.req("cases")).iter().enumerate() {
@@ -336,7 +336,7 @@ pub fn conc(o: &Opts) -> i32 {
     let bin = o.req("bin").to_string();
     let scratch = PathBuf::from(o.req("scratch"));
     let mut out = Out::create(o.req("out"));
-    let root = scratch.join("site");
+    let root = scratch.join("tree").join("site");
     conc_site(&root);
     let t = Duration::from_millis(o.num("timeout-ms", 5000));
     let reqs = conc_requests();
@@ -403,5 +403,170 @@ pub fn conc(o: &Opts) -> i32 {
     let n = out.n;
     out.finish();
     eprintln!("wire-conc: {} events", n);
+    0
+}
+
+// ----------------------------------------------------------------------------- C13
+
+fn fnv(bytes: &[u8]) -> String {
+    let mut h: u64 = 0xcbf29ce484222325;
+    for b in bytes {
+        h ^= *b as u64;
+        h = h.wrapping_mul(0x100000001b3);
+    }
+    format!("{:016x}", h)
+}
+
+/// full manifest of a tree: [relative path, kind, size, content hash, link target], sorted by path
+pub fn manifest(top: &Path) -> Value {
+    fn walk(dir: &Path, top: &Path, out: &mut Vec<Vec<String>>) {
+        let mut entries: Vec<_> = match std::fs::read_dir(dir) {
+            Ok(rd) => rd.filter_map(|e| e.ok()).collect(),
+            Err(_) => return,
+        };
+        entries.sort_by_key(|e| e.file_name());
+        for e in entries {
+            let p = e.path();
+            let rel = p.strip_prefix(top).unwrap().to_string_lossy().to_string();
+            let md = match std::fs::symlink_metadata(&p) {
+                Ok(m) => m,
+                Err(_) => continue,
+            };
+            if md.file_type().is_symlink() {
+                let t = std::fs::read_link(&p).map(|t| t.to_string_lossy().to_string()).unwrap_or_default();
+                out.push(vec![rel, "link".into(), "0".into(), String::new(), t]);
+            } else if md.is_dir() {
+                out.push(vec![rel.clone(), "dir".into(), "0".into(), String::new(), String::new()]);
+                walk(&p, top, out);
+            } else {
+                let bytes = std::fs::read(&p).unwrap_or_default();
+                out.push(vec![rel, "file".into(), md.len().to_string(), fnv(&bytes), String::new()]);
+            }
+        }
+    }
+    let mut out = vec![];
+    walk(top, top, &mut out);
+    json!(out)
+}
+
+/// one strace line -> Syscall event (only calls that name a path and can change the file system are kept)
+fn syscall_event(line: &str) -> Option<Value> {
+    // "1234 openat(AT_FDCWD, "/path", O_RDONLY|O_CLOEXEC) = 3"
+    let rest = line.splitn(2, ' ').nth(1)?.trim_start();
+    let open = rest.find('(')?;
+    let call = &rest[..open];
+    const KEEP: &[&str] = &["open", "openat", "openat2", "creat", "unlink", "unlinkat", "rename", "renameat", "renameat2", "mkdir", "mkdirat", "rmdir",
+        "symlink", "symlinkat", "link", "linkat", "chmod", "fchmod", "fchmodat", "chown", "fchown", "lchown", "fchownat", "truncate", "ftruncate",
+        "utime", "utimes", "utimensat", "futimesat", "mknod", "mknodat", "setxattr", "removexattr", "fallocate"];
+    if !KEEP.contains(&call) {
+        return None;
+    }
+    let args = &rest[open + 1..];
+    let path = match (args.find('"'), args[args.find('"').map(|i| i + 1).unwrap_or(0)..].find('"')) {
+        (Some(a), Some(b)) => args[a + 1..a + 1 + b].to_string(),
+        _ => String::new(),
+    };
+    // flags: the first argument made of O_* tokens
+    let mut flags: Vec<String> = vec![];
+    for a in args.split(", ") {
+        let a = a.trim_end_matches(|c| c == ')' || c == ' ');
+        let a = a.split(')').next().unwrap_or(a);
+        if a.starts_with("O_") {
+            flags = a.split('|').map(|x| x.to_string()).collect();
+            break;
+        }
+    }
+    let benign = path.starts_with("/dev/") || path.starts_with("/proc/") || path.starts_with("/sys/");
+    Some(json!({"ev":"Syscall","call":call,"path":path,"flags":flags,"benign":benign}))
+}
+
+/// C13 on the wire: the C04 request documents plus upload-shaped ones against the real binary under strace
+pub fn fs(o: &Opts) -> i32 {
+    let bin = o.req("bin").to_string();
+    let scratch = PathBuf::from(o.req("scratch"));
+    let mut out = Out::create(o.req("out"));
+    let tree = scratch.join("tree");
+    let root = tree.join("site");
+    make_site(&root);
+    std::fs::create_dir_all(tree.join("outside")).unwrap();
+    std::fs::write(tree.join("outside/sentinel.txt"), b"do not touch").unwrap();
+    std::fs::write(tree.join("above.txt"), b"above the root").unwrap();
+    // a dangling link inside the root whose target would be created outside by a careless create-if-missing
+    std::os::unix::fs::symlink("../outside/theme.css", root.join("theme-link.css")).ok();
+    let strace_path = scratch.join("strace.out");
+    let use_strace = o.get("no-strace").is_none();
+    let port = free_port();
+    let addr: SocketAddr = format!("127.0.0.1:{}", port).parse().unwrap();
+    let n = o.num("workers", 8);
+    let t = Duration::from_millis(o.num("timeout-ms", 4000));
+    out.emit(&json!({"ev":"Manifest","when":"before","entries":manifest(&tree)}));
+    let mut srv = match Srv::start(&bin, &root, &[], &[format!("--port={}", port), format!("--thread-count={}", n)], &[addr],
+                                   if use_strace { Some(strace_path.as_path()) } else { None }, "fs") {
+        Ok(s) => s,
+        Err(e) => {
+            eprintln!("start failed: {}", e);
+            return 2;
+        }
+    };
+    let cases = read_ndjson(o.req("cases"));
+    let mut sent = 0;
+    // the documents are sent by several client threads (the order between connections is irrelevant for C13)
+    let docs: Vec<Vec<u8>> = cases.iter().map(|c| crate::d_conn::render_doc(&c["doc"])).collect();
+    let docs = std::sync::Arc::new(docs);
+    let next = std::sync::Arc::new(std::sync::atomic::AtomicUsize::new(0));
+    let clients = o.num("clients", 8) as usize;
+    let handles: Vec<_> = (0..clients)
+        .map(|_| {
+            let docs = docs.clone();
+            let next = next.clone();
+            std::thread::spawn(move || {
+                let mut statuses = vec![];
+                loop {
+                    let i = next.fetch_add(1, std::sync::atomic::Ordering::SeqCst);
+                    if i >= docs.len() {
+                        break;
+                    }
+                    statuses.push((i, status_of(&exchange(addr, &docs[i], t))));
+                }
+                statuses
+            })
+        })
+        .collect();
+    let mut statuses: Vec<(usize, u64)> = handles.into_iter().flat_map(|h| h.join().unwrap_or_default()).collect();
+    statuses.sort();
+    for (i, st) in statuses.iter() {
+        sent += 1;
+        if *i < 5 || *i % 500 == 0 {
+            out.emit(&json!({"ev":"Request","i":i,"seed":cases[*i]["seed"],"muts":cases[*i]["muts"],"status":st}));
+        }
+    }
+    // sequences: the same target hit repeatedly and in alternation (a create-if-missing path fires once per tree)
+    for target in ["/style.css", "/script.js", "/favicon.svg", "/", "/index.html", "/404.html", "/nx", "/theme-link.css", "/docs", "/docs/"] {
+        for m in ["GET", "HEAD", "OPTIONS", "PUT", "DELETE", "POST"] {
+            let bytes = format!("{} {} HTTP/1.1\r\nHost: localhost\r\nContent-Length: 3\r\n\r\nabc", m, target).into_bytes();
+            let r = exchange(addr, &bytes, t);
+            sent += 1;
+            out.emit(&json!({"ev":"Request","i":sent,"seed":format!("{} {}", m, target),"muts":[],"status":status_of(&r)}));
+        }
+    }
+    let alive = srv.alive();
+    out.emit(&json!({"ev":"Exit","alive":alive}));
+    srv.stop();
+    std::thread::sleep(Duration::from_millis(100));
+    out.emit(&json!({"ev":"Manifest","when":"after","entries":manifest(&tree)}));
+    let mut nsys = 0;
+    if use_strace {
+        let text = std::fs::read_to_string(&strace_path).unwrap_or_default();
+        // the server's own start-up (before it accepts) opens nothing for writing either; every line is judged
+        for line in text.lines() {
+            if let Some(ev) = syscall_event(line) {
+                out.emit(&ev);
+                nsys += 1;
+            }
+        }
+    }
+    let n = out.n;
+    out.finish();
+    eprintln!("wire-fs: {} requests, {} file-system calls, {} events", sent, nsys, n);
     0
 }
